@@ -105,6 +105,7 @@ def run(ctx):
         n_agg = 0
         inputs_seen = [set() for _ in evs]
         earlier = [[] for _ in evs]          # inputs already evaluated on each evaluator (for the replay)
+        bufs = [None for _ in evs]            # caller-side array objects that are refilled IN PLACE and handed in again
         with tempfile.TemporaryDirectory() as tmp:
             for step in range(rng.randint(3, 9)):
                 i = rng.randrange(len(evs))
@@ -126,6 +127,27 @@ def run(ctx):
                             p = r.copy()
                             for _k in range(rng.randint(0, 3)):
                                 p.reshape(-1)[rng.randrange(p.size)] = rng.choice([0, 1, 2])
+                    inplace = False
+                    if bufs[i] is not None and rng.random() < 0.5:
+                        # the caller refills the SAME ndarray objects with the next case (new content of the buffers' shape and dtype)
+                        bp, br = bufs[i]
+                        if "groups" in cfgs[i]:
+                            nr_ = np.array([rng.choice([0, 0, 1, 2, 3, 4, 5, 6]) for _ in range(br.size)], dtype=br.dtype).reshape(br.shape)
+                        else:
+                            nr_ = impl.rand_blobs(rng, br.shape, rng.randint(1, 3), dtype=str(br.dtype))
+                            if cfgs[i]["input"] == "semantic":
+                                nr_ = (nr_ != 0).astype(br.dtype)
+                        np_ = nr_.copy()
+                        for _k in range(rng.randint(0, 3)):
+                            np_.reshape(-1)[rng.randrange(np_.size)] = rng.choice([0, 1, 2]) if "groups" not in cfgs[i] and cfgs[i]["input"] != "semantic" else rng.choice([0, 1])
+                        if cfgs[i]["input"] == "matched" and "groups" not in cfgs[i]:
+                            np_ = np.where(np_ != 0, np.where(nr_ != 0, nr_, np_), 0).astype(br.dtype)
+                        bp[...] = np_
+                        br[...] = nr_
+                        p, r = bp, br
+                        inplace = True
+                    else:
+                        bufs[i] = (p, r)
                     opts = {"result_all": rng.random() < 0.8, "save_group_times": rng.choice([None, True, False]),
                             "log_times": rng.choice([None, True, False]), "verbose": rng.choice([None, True, False])}
                     hp, hr = digest(p), digest(r)
@@ -147,8 +169,8 @@ def run(ctx):
                     if a != b:
                         ctx.violation("evaluate on a used evaluator / with options differs from a fresh evaluator",
                                       {"cfg": jcfg(cfgs[i]), "pred": p, "ref": r, "opts": opts, "history": hist, "observed": a, "fresh": b,
-                                       "earlier_inputs": list(earlier[i][-4:])})
-                    earlier[i].append({"pred": p.copy(), "ref": r.copy(), "opts": opts})
+                                       "earlier_inputs": list(earlier[i][-4:]), "same_array_objects_refilled_in_place": inplace})
+                    earlier[i].append({"pred": p.copy(), "ref": r.copy(), "opts": opts, "inplace": inplace})
                     if not isinstance(out, tuple):
                         eff = opts["save_group_times"] if opts["save_group_times"] is not None else cfgs[i]["sgt"]
                         for g, (res, _) in out.items():
@@ -234,10 +256,20 @@ def replay(path):
             ev.set_log_group_times(True)
         return ev
     used = mk()
+    buf = None
     for h in d.get("earlier_inputs", []):
-        impl.evaluate(used, common.arr_from_json(h["pred"]), common.arr_from_json(h["ref"]), **h.get("opts", {}))
+        hp, hr = common.arr_from_json(h["pred"]), common.arr_from_json(h["ref"])
+        if h.get("inplace") and buf is not None and buf[0].shape == hp.shape and buf[0].dtype == hp.dtype:
+            buf[0][...] = hp; buf[1][...] = hr
+        else:
+            buf = (hp, hr)
+        impl.evaluate(used, buf[0], buf[1], **h.get("opts", {}))
     pred, ref = common.arr_from_json(d["pred"]), common.arr_from_json(d["ref"])
-    out = impl.evaluate(used, pred.copy(), ref.copy(), result_all=True)
+    if d.get("same_array_objects_refilled_in_place") and buf is not None and buf[0].shape == pred.shape and buf[0].dtype == pred.dtype:
+        buf[0][...] = pred; buf[1][...] = ref
+        out = impl.evaluate(used, buf[0], buf[1], result_all=True)
+    else:
+        out = impl.evaluate(used, pred.copy(), ref.copy(), result_all=True)
     exp = impl.evaluate(mk(), pred.copy(), ref.copy(), result_all=True)
     a, b = canon_out(out), canon_out(exp)
     print(f"evaluator used for {len(d.get('earlier_inputs', []))} earlier input(s):", str(a)[:600])
